@@ -17,9 +17,9 @@ MANIFEST = {
     'note': 'Trusted: engine, vf.symcbor, independent reader, z3. Security-failure outcome is exercised in C12.',
     'ref': '5 C19'}
 BOUNDS = {'quick': dict(flags='all 32 combinations', report_to='dtn:none | real', outcomes=6),
-          'thorough': dict(flags='all 32 combinations', report_to='dtn:none | real | own node', outcomes=6)}
+          'thorough': dict(flags='all 32 combinations', report_to='dtn:none | real', outcomes=6, subject='CRC types 0/1/2, sequence number in [0,2^64), a fragment as subject of forward/delete outcomes')}
 ASSUMPTIONS = [
-    'one subject bundle per run; CRC type of the subject in {0,2}',
+    'one subject bundle per run',
     'forwarded status is judged after the send (the implementation records it after send_bundle returns)',
 ]
 REQUIRED_CLASSES = {'all': ['report', 'no-report']}
@@ -35,6 +35,13 @@ def cases(tier):
     for oc in OUTCOMES:
         for rep in ('none', 'real'):
             out.append(dict(outcome=oc, rep=rep))
+            if tier != 'quick':
+                # other CRC types on the subject, sequence number over all CBOR head classes, a forwarded subject
+                # that is itself a fragment
+                out.append(dict(outcome=oc, rep=rep, crc=0, wide=1))
+                out.append(dict(outcome=oc, rep=rep, crc=1, wide=1))
+                if oc in ('forward', 'delete', 'fwdfail'):
+                    out.append(dict(outcome=oc, rep=rep, crc=2, frag=1))
     return out
 
 
@@ -56,12 +63,17 @@ def harness(case, tier):
     flags = sum(FL[n] for n in names if req[n])
     report_to = 'dtn://rep/svc' if case['rep'] == 'real' else 'dtn:none'
     t = c.sym_int('t', 2 ** 32, 2 ** 39)
-    s = c.sym_int('s', 0, 23)
+    s = c.sym_int('s', 0, 2 ** 64 - 1 if case.get('wide') else 23)
     plen = 300 if oc == 'fragment' else 5
     payload = c.sym_blob('payload', plen)
-    pri = dict(flags=flags, crc_type=2, destination=dest, source='dtn://src/app', report_to=report_to,
+    ct = case.get('crc', 2)
+    pri = dict(flags=flags, crc_type=ct, destination=dest, source='dtn://src/app', report_to=report_to,
                create_ts=[t, s], lifetime=3600000)
-    wire = rfc9171.sealed_bundle(pri, [dict(type=1, num=1, flags=0, crc_type=2, data=payload)])
+    if case.get('frag'):
+        pri['flags'] = flags | 1
+        pri['fragment_offset'] = c.sym_int('foff', 0, 2 ** 32)
+        pri['total_adu_length'] = pri['fragment_offset'] + plen + c.sym_int('rest', 0, 2 ** 32)
+    wire = rfc9171.sealed_bundle(pri, [dict(type=1, num=1, flags=0, crc_type=ct, data=payload)])
     w.recv(wire)
     w.run_idle(40)
     esc = w.escaped()
